@@ -558,6 +558,14 @@ func ruleExpansionSites(c *core.Ctx, rule string, only func(*ssa.Function) bool)
 						bad = append(bad, fmt.Sprintf("%s: pass-through contribution %s is not restricted to the selected element", ct.pos, ct))
 					}
 				}
+				for _, ct := range foundC {
+					if ct.sink == "print" && ct.name == "outer.Name" {
+						continue
+					}
+					if !strings.Contains(ct.filter, "==") {
+						bad = append(bad, fmt.Sprintf("%s: found-side contribution %s is not restricted to the selected element: a food that does not contain the element contributes the amount of some other element", ct.pos, ct))
+					}
+				}
 			}
 			// (d) same sinks on both sides
 			fs, ns := map[string]bool{}, map[string]bool{}
@@ -602,4 +610,120 @@ func switchLoc(x *absint.Exec, atom, sw string) bool {
 	}
 	id := strings.TrimSuffix(strings.TrimPrefix(atom, "b(§@"), ")")
 	return strings.HasSuffix(x.LocOf[id], "·"+sw)
+}
+
+// ruleReporterSelection: a function that chooses among reporter constructors
+// returns an element-filtering reporter exactly when a single element was
+// asked for — whatever the other switches say. "Element-filtering" is read off
+// the reporters themselves: a type whose Process restricts its contributions
+// to one selected element (contribution summaries with a name filter).
+func ruleReporterSelection(c *core.Ctx, rule string, only func(*ssa.Function) bool) {
+	rp := c.P.Pkg(reporterPkg)
+	if rp == nil {
+		return
+	}
+	obj := rp.Types.Scope().Lookup("Reporter")
+	if obj == nil {
+		return
+	}
+	// which reporter types filter by element
+	filtering := map[string]bool{}
+	for _, fn := range expansionSites(c.P) {
+		if fn.Name() != "Process" || fn.Signature.Recv() == nil {
+			continue
+		}
+		cons, ok := collectContributions(c, rule, fn)
+		if !ok {
+			continue
+		}
+		for _, ct := range cons {
+			if strings.Contains(ct.filter, "==") {
+				t := fn.Signature.Recv().Type()
+				if pt, isP := t.(*types.Pointer); isP {
+					t = pt.Elem()
+				}
+				filtering[t.String()] = true
+			}
+		}
+	}
+	n := 0
+	for _, fn := range c.P.Funcs {
+		if only != nil && !only(fn) {
+			continue
+		}
+		if fn.Signature.Results().Len() != 1 || !types.Identical(fn.Signature.Results().At(0).Type(), obj.Type()) || fn.Parent() != nil || len(fn.Blocks) == 0 {
+			continue
+		}
+		x := newExec(c)
+		x.Hooks.Inline = func(callee *ssa.Function, depth int) bool { return depth <= 1 }
+		terms := x.Run(x.NewState(fn, nil, nil))
+		if len(x.Problems) > 0 || x.Exhausted {
+			continue
+		}
+		type outcome struct{ single, typ, pos, val string }
+		var outs []outcome
+		typesSeen := map[string]bool{}
+		for _, tm := range terms {
+			if tm.Kind != "return" || len(tm.Ret) != 1 {
+				continue
+			}
+			iv, ok := tm.Ret[0].(*absint.Iface)
+			if !ok {
+				continue
+			}
+			t := iv.T
+			if pt, isP := t.(*types.Pointer); isP {
+				t = pt.Elem()
+			}
+			single := ""
+			for k := range tm.State.PC {
+				if strings.HasPrefix(k, "ord(") && strings.Contains(k, `c:"SingleElement"`) && strings.Contains(k, "len(") {
+					if o := x.Possible(tm.State, k); len(o) > 0 {
+						single = strings.Join(o, "")
+					}
+				}
+			}
+			typesSeen[t.String()] = true
+			outs = append(outs, outcome{single, t.String(), c.P.Pos(tm.Pos), x.Valuation(tm.State)})
+		}
+		if len(typesSeen) < 2 {
+			continue // not a selector
+		}
+		anyFiltering := false
+		for t := range typesSeen {
+			if filtering[t] {
+				anyFiltering = true
+			}
+		}
+		if !anyFiltering {
+			continue
+		}
+		n++
+		fname := core.FuncName(fn)
+		c.Universe(rule+" reporter selectors", fname+" ("+c.P.Pos(fn.Pos())+")")
+		var bad []string
+		for _, o := range outs {
+			short := o.typ[strings.LastIndex(o.typ, ".")+1:]
+			switch {
+			case o.single == "<" && !filtering[o.typ]:
+				bad = append(bad, fmt.Sprintf("%s: with a single element requested the selector returns %s, which does not restrict itself to that element (%s): the report shows raw quantities of every food instead of quantity x the food's amount of the element", o.pos, short, o.val))
+			case o.single == "=" && filtering[o.typ]:
+				bad = append(bad, fmt.Sprintf("%s: without a single element the selector returns the element-filtering reporter %s (%s)", o.pos, short, o.val))
+			case o.single == "" && filtering[o.typ]:
+				bad = append(bad, fmt.Sprintf("%s: the selector returns %s on a path that never asked whether a single element was requested (%s)", o.pos, short, o.val))
+			case o.single == "" && !filtering[o.typ]:
+				bad = append(bad, fmt.Sprintf("%s: the selector returns %s before asking whether a single element was requested (%s): another switch takes precedence over --single-element", o.pos, short, o.val))
+			}
+		}
+		bad = uniq(bad)
+		if len(bad) == 0 {
+			c.Discharge(rule, fname, "selection", c.P.Pos(fn.Pos()), fmt.Sprintf("an element-filtering reporter is returned exactly when a single element is requested (%d paths, %d reporter types)", len(outs), len(typesSeen)))
+		}
+		for _, m := range bad {
+			c.Violate(rule, fname, "selection", c.P.Pos(fn.Pos()), m, nil)
+		}
+	}
+	if n == 0 {
+		c.Note(rule + ": no function selects among reporters of which one filters by element")
+	}
 }
